@@ -127,6 +127,13 @@ def run(tier, rep):
         raise C.MachineryError("as_found variant of Ruler.tla no longer violates Coherent (vacuity guard)")
     rep.tlc("Ruler[as_found, expected counter-example]", ra)
     # every transition of a tiny configuration
+    # unbounded histories at bounded registry size: IndInv is inductive (one step from EVERY state satisfying it)
+    ri = C.run_tlc("RulerInd", f"RulerInd_{tier}.cfg", allow_violation=False, heap="12g", timeout=3000)
+    rep.tlc(f"RulerInd[{tier}: IndInv /\\ Next => IndInv']", ri)
+    ria = C.run_tlc("RulerInd", "RulerInd_asfound.cfg")
+    if ria.ok or ria.violated != "IndInv":
+        raise C.MachineryError("as_found variant no longer breaks the inductive step (vacuity guard)")
+    rep.tlc("RulerInd[as_found, expected counter-example]", ria)
     rt = C.run_tlc("Ruler", "Ruler_tiny.cfg", allow_violation=False)
     rep.tlc("Ruler[tiny, every transition]", rt)
     edges = {l for l in rt.out.splitlines() if l.startswith('"[{')}
